@@ -196,8 +196,9 @@ def _scan(ctx):
         "evaluations": hstat["runs"] + nfn + npm,
         "distinct_nontrivial": sum(1 for r in sel if len(r["ents"]) >= 2) + nfn + npm,
         "rule": "evaluations = calls of loadScanConfigFile (two listing orders per world) + extractDefaultsFromFilename + parseMessage; "
-                "worlds, names and texts are pairwise distinct (TLC asserts the records are exactly the enumerated domain); non-trivial = a "
-                "world with at least two directory entries, every name, every text",
+                "TLC asserts that the records are the enumerated case list, index by index (names and texts are pairwise distinct, a world "
+                "that belongs to two families is run twice); non-trivial = a world with at least two directory entries, every name, "
+                "every text",
         "worlds": nsel, "families": fam, "names": nfn, "texts": npm, "files_created": hstat["files"], "chosen": chosen,
         "listing_order_dependent": order_dep, "decided_by_P": decided, "open_clause_hits": sum(opens.values()), "rejected": rejected,
         "tlc_states": res["distinct"],
